@@ -53,14 +53,20 @@ impl<T> ResourceStorage<T> {
 
 	pub fn remove_and_add(&mut self, remove_test: impl FnMut(&T) -> bool) {
 		for (_, resource) in self.resources.drain_filter(remove_test) {
+			#[cfg(feature = "verif-hooks")]
+			crate::verif::sync_point("res.unused.push");
 			self.unused_resource_producer
 				.push(resource)
 				.unwrap_or_else(|_| panic!("unused resource producer is full"));
 		}
+		#[cfg(feature = "verif-hooks")]
+		crate::verif::sync_point("res.new.pop");
 		while let Ok((key, resource)) = self.new_resource_consumer.pop() {
 			self.resources
 				.insert_with_key(key, resource)
 				.expect("error inserting resource");
+			#[cfg(feature = "verif-hooks")]
+			crate::verif::sync_point("res.new.pop");
 		}
 	}
 
@@ -130,11 +136,15 @@ impl<T> SelfReferentialResourceStorage<T> {
 
 	pub fn remove_and_add(&mut self, remove_test: impl FnMut(&T) -> bool) {
 		self.remove_unused(remove_test);
+		#[cfg(feature = "verif-hooks")]
+		crate::verif::sync_point("res.new.pop");
 		while let Ok((key, resource)) = self.new_resource_consumer.pop() {
 			self.resources
 				.insert_with_key(key, resource)
 				.expect("error inserting resource");
 			self.keys.push(key);
+			#[cfg(feature = "verif-hooks")]
+			crate::verif::sync_point("res.new.pop");
 		}
 	}
 
@@ -164,6 +174,8 @@ impl<T> SelfReferentialResourceStorage<T> {
 			let resource = &mut self.resources[key];
 			if remove_test(resource) {
 				let resource = self.resources.remove(key).unwrap();
+				#[cfg(feature = "verif-hooks")]
+				crate::verif::sync_point("res.unused.push");
 				self.unused_resource_producer
 					.push(resource)
 					.unwrap_or_else(|_| panic!("unused resource producer is full"));
@@ -199,13 +211,19 @@ impl<T> ResourceController<T> {
 	}
 
 	pub fn try_reserve(&self) -> Result<Key, ResourceLimitReached> {
+		#[cfg(feature = "verif-hooks")]
+		crate::verif::sync_point("res.reserve");
 		self.arena_controller
 			.try_reserve()
 			.map_err(|_| ResourceLimitReached)
 	}
 
 	pub fn insert_with_key(&mut self, key: Key, resource: T) {
+		#[cfg(feature = "verif-hooks")]
+		crate::verif::sync_point("res.unused.drain");
 		self.remove_unused();
+		#[cfg(feature = "verif-hooks")]
+		crate::verif::sync_point("res.new.push");
 		self.new_resource_producer
 			.get_mut()
 			.expect("new resource producer mutex poisoned")
@@ -228,6 +246,8 @@ impl<T> ResourceController<T> {
 
 	#[must_use]
 	pub fn len(&self) -> usize {
+		#[cfg(feature = "verif-hooks")]
+		crate::verif::sync_point("res.len");
 		self.arena_controller.len()
 	}
 }
